@@ -21,34 +21,62 @@ Definition g (kind : Z) : list event :=
   match kind with 1 => [Eo] | 2 => [Ei] | 3 => [Eb] | 4 => [Enop] | _ => [] end.
 Definition gv (kind v : Z) : list event := Ein v :: g kind.
 
+(* Wire format.  Long list literals and long number literals are slow to parse, so the steps and
+   the output trace travel as lists of chunks of at most 60 bits.
+   step code = kind + 8 * f on 3 + fb bits, f = 0 (input not driven) or v + off; first step in the low bits.
+   output code = value + ooff on ob bits. *)
+Fixpoint unchunk (per : nat) (bits c : Z) : list Z :=
+  match per with
+  | O => []
+  | S p => Z.land c (2 ^ bits - 1) :: unchunk p bits (Z.shiftr c bits)
+  end.
+Definition per_chunk (bits : Z) : nat := Z.to_nat (60 / bits).
+Definition dec_step (off c : Z) : list event :=
+  let f := Z.shiftr c 3 in
+  (if f =? 0 then [] else [Ein (f - off)]) ++ g (Z.land c 7).
+(* U fb off n chunks = the n steps *)
+Definition U (fb off : Z) (n : nat) (chunks : list Z) : list (list event) :=
+  map (dec_step off) (firstn n (flat_map (unchunk (per_chunk (3 + fb)) (3 + fb)) chunks)).
+
+Fixpoint pack1 (bits off : Z) (l : list Z) : Z :=
+  match l with [] => 0 | v :: r => (v + off) + 2 ^ bits * pack1 bits off r end.
+Fixpoint chunked (fuel per : nat) (l : list Z) : list (list Z) :=
+  match fuel with
+  | O => []
+  | S f => match l with [] => [] | _ => firstn per l :: chunked f per (skipn per l) end
+  end.
+Definition pack (bits off : Z) (l : list Z) : list Z :=
+  map (pack1 bits off) (chunked (length l) (per_chunk bits) l).
+
 Definition nz (n : nat) : Z := Z.of_nat n.
 
-(* FFSynchronizer(i, o, stages, init) with i, o : Shape(w, sg); answer = o initially, o after every
-   group, then 1 (the slot where the implementation side reports its shift-register monitor) *)
+(* FFSynchronizer(i, o, stages, init) with i, o : Shape(w, sg); answer = 1 (the slot where the
+   implementation side reports its shift-register monitor), then the packed [o initially; o after every group] *)
 Definition k_ff (w : Z) (sg : bool) (stages : nat) (init i0 : Z) (gs : list (list event)) : list Z :=
   let sh := Sh w sg in
   let s0 := ff_start sh stages init i0 in
-  ff_out s0 :: trace (ff_step sh) ff_out s0 gs ++ [1].
+  1 :: pack (w + 1) (2 ^ w) (ff_out s0 :: trace (ff_step sh) ff_out s0 gs).
 
 (* AsyncFFSynchronizer(i, o, stages, async_edge) *)
 Definition k_af (pos : bool) (stages : nat) (i0 : Z) (gs : list (list event)) : list Z :=
   let s0 := af_start stages i0 in
-  b2l (af_out s0) :: trace (af_step pos) (fun s => b2l (af_out s)) s0 gs ++ [1].
+  1 :: pack 1 0 (b2l (af_out s0) :: trace (af_step pos) (fun s => b2l (af_out s)) s0 gs).
 
 (* ResetSynchronizer(arst, domain, stages): observed on the reset signal of `domain` *)
 Definition k_rs (stages : nat) (i0 : Z) (gs : list (list event)) : list Z := k_af true stages i0 gs.
 
-(* PulseSynchronizer(i_domain, o_domain, stages): trace of o, then the number of input pulses,
-   the number of output cycles with o = 1, the pulses still in flight, and the monitor slot *)
+(* PulseSynchronizer(i_domain, o_domain, stages): the number of input pulses, the number of output
+   cycles with o = 1, the monitor slot, then the packed trace of o *)
 Definition k_ps (stages : nat) (i0 : Z) (gs : list (list event)) : list Z :=
   let s0 := ps_start stages i0 in
   let evs := concat gs in
-  b2l (ps_out s0) :: trace ps_step (fun s => b2l (ps_out s)) s0 gs
-    ++ [nz (in_pulses (ps_i s0) evs); nz (out_cycles s0 evs); 1].
+  nz (in_pulses (ps_i s0) evs) :: nz (out_cycles s0 evs) :: 1 ::
+  pack 1 0 (b2l (ps_out s0) :: trace ps_step (fun s => b2l (ps_out s)) s0 gs).
 
 (* is the word admissible for pulse conservation (the implementation side computes the same
    predicate independently in Python) *)
-Definition k_sep (i0 : Z) (gs : list (list event)) : list Z := [b2l (separated (Z.odd i0) false (concat gs))].
+Definition k_sep (i0 : Z) (gs : list (list event)) : list Z :=
+  [b2l (separated (Z.odd i0) false (concat gs))].
 
 (* RequirePosedge: needs = the component contains RequirePosedge(o_domain); is_pos = clk_edge of the
    domain; [1] = elaborates, [0; 1] = DomainRequirementFailed *)
